@@ -238,9 +238,19 @@ def c08(ctx):
 
 
 def c09(ctx):
-    ctx.assumptions += LANE_ASSUME[2:] + MEM_ASSUME
-    _with_mc(ctx, lambda: mc_mem(ctx),
-             lambda: runner.lane_facts(ctx, 'drv_mem.cpp', 'mem', ALL_GROUPS, env_extra={'MEMMODE': 'footprint'}))
+    ctx.assumptions += LANE_ASSUME[2:] + MEM_ASSUME + [
+        'byte-exact READ footprints: in the configurations valgrind 3.19 can execute (no AVX-512) the driver runs again under memcheck with everything around the addressed elements marked inaccessible; an over-read that stays inside the accessible page is then an event (vgerr > 0) the specification rejects. AVX-512 arms have page protection only']
+
+    def conf():
+        runner.lane_facts(ctx, 'drv_mem.cpp', 'mem', ALL_GROUPS, env_extra={'MEMMODE': 'footprint'})
+        saved = ctx.cfgs
+        vg = [c for c in saved if c.has('SSE2') and not c.has('AVX512F')]
+        if vg:
+            ctx.cfgs = vg
+            runner.lane_facts(ctx, 'drv_mem.cpp', 'mem', ALL_GROUPS, env_extra={'MEMMODE': 'footprint'}, extra_defs=['VH_VALGRIND'],
+                              exec_prefix=['valgrind', '-q', '--error-exitcode=0', '--undef-value-errors=no', '--error-limit=no'])
+            ctx.cfgs = saved
+    _with_mc(ctx, lambda: mc_mem(ctx), conf)
 
 
 DENOM_ASSUME = [
